@@ -922,3 +922,48 @@ def sorted_precondition(run, fns, sorted_tables, rule='R5', instance='sorted-pre
                       '%s is applied to %s, which nothing keeps sorted (not a tabled sorted container, no dominating sort): the answer is right only for inputs that happen to be in ascending order' % (nm, cont or q.render(fn, first)[:40]),
                       why_ok)
     return n
+
+
+def _is_unsigned_ty(t):
+    t = t.replace('const ', '').strip()
+    return t.startswith('unsigned') or t in ('size_t', 'std::size_t') or t.startswith('uint') or t.startswith('std::uint')
+
+
+def signed_difference_compares(run, fns, rule='R11', instance='unsigned-compare-of-difference'):
+    """A relational comparison one of whose operands is a SIGNED difference of run-time values converted to an unsigned
+    type (explicitly - std::size_t(hsize - nsize + 1) - or by the usual arithmetic conversions against an unsigned
+    index): when the difference is negative the converted bound is ~2^64 and the loop or test it limits runs off the
+    end of the buffer.  Accepted when a dominating guard orders the two operands of the subtraction.  Returns the
+    number of relational comparisons with an unsigned-converted signed operand examined."""
+    n = 0
+    for fn in fns:
+        for c in fn.all_nodes():
+            if not (c['k'] == 'bin' and c['op'] in ('<', '<=', '>', '>=')):
+                continue
+            for side in (c['lhs'], c['rhs']):
+                x = side
+                conv = None
+                while is_node(x) and x['k'] in ('cast', 'paren', 'construct'):
+                    if x['k'] == 'cast' and is_node(x.get('e')) and 't' in x and 't' in x['e']:
+                        if _is_unsigned_ty(fn.cty(x)) and not _is_unsigned_ty(fn.cty(x['e'])) and fn.cty(x['e']).replace('const ', '') in ('int', 'long', 'short', 'long long', 'char', 'signed char'):
+                            conv = x
+                    nxt = x.get('e') if x['k'] != 'construct' else (x['args'][0] if len(x.get('args') or []) == 1 else None)
+                    if not is_node(nxt):
+                        break
+                    x = nxt
+                if conv is None:
+                    continue
+                n += 1
+                inner = q.strip_casts(conv['e'])
+                subs = [s_ for s_ in walk(inner) if s_['k'] == 'bin' and s_['op'] == '-' and q.int_value(s_['lhs']) is None and q.int_value(s_['rhs']) is None]
+                if not subs:
+                    continue
+                run.touch(fn)
+                g = q.guards_at(fn, c)
+                proven = all(q.establishes_order(fn, g, s_['lhs'], s_['rhs']) for s_ in subs)
+                top = q.top_function(run.fx, fn).norm
+                run.check(proven, rule, instance, '%s: %s' % (top, q.render(fn, c)[:70]), fn.loc(c),
+                          'the comparison uses %s converted to %s: nothing on the way establishes %s, and when the difference is negative the converted value is huge (~2^64), so the loop/test it bounds runs past the end of the range'
+                          % (q.render(fn, inner)[:60], fn.cty(conv), ' and '.join('%s <= %s' % (q.render(fn, s_['rhs'])[:30], q.render(fn, s_['lhs'])[:30]) for s_ in subs)),
+                          'a dominating guard orders the operands of the subtraction')
+    return n
